@@ -1282,6 +1282,17 @@ def run(chk, runner_ok):
                            classify=lambda t, fmt=fmt: None)
     deviation_streams(chk)
     direct_suites(chk, model)
+    chk.notes += [
+        "generator limits: DTD comments are printed within the parser's own comment character class "
+        "(BMP, no control characters); Android garbage is well-formed non-<string> elements (free text "
+        "inside <resources> is whitespace to the parser, a malformed document is one junk entry); Fluent "
+        "garbage lines do not start with '{' or '.' (those continue the preceding message by the grammar)",
+        "deviation streams (run last, reported under their own signatures): PO comments followed by exactly "
+        "one blank line (signature po-comment-attached-across-one-blank-line) and properties/ini/inc comments "
+        "containing VT FF FS GS RS NEL LS PS (signature offsetcomment-val-splits-at-exotic-line-boundary); "
+        "a failing file is attributed to such a signature only when the parse equals the expectation "
+        "recomputed under exactly that deviation",
+    ]
     chk.trusted += [
         "html.unescape (DTD val): oracle parameter of the model, table computed by CPython per case",
         "fluent.syntax (resource body, spans, comment content) and xml.dom.minidom (child list, toxml, "
